@@ -327,6 +327,13 @@ def cmp_keys(F, b):
             return left + (walk(cb, rets[0]) if len(rets) == 1 else ["?multi"])
         if t[0] == "call" and t[1].endswith("::then") and len(t[2]) == 2:
             return walk(body, t[2][0]) + walk(body, t[2][1])
+        # `(a1, a2, a3).cmp(&(b1, b2, b3))`: tuples compare lexicographically, component by component
+        if t[0] == "call" and t[1].endswith("::cmp") and len(t[2]) == 2 and all(x[0] == "agg" and str(x[1]).startswith("tuple") for x in t[2]) \
+                and len(t[2][0][3]) == len(t[2][1][3]):
+            out = []
+            for x, y in zip(t[2][0][3], t[2][1][3]):
+                out.append(label(("call", "core::cmp::Ord::cmp", (x, y), 0)))
+            return out
         return [label(t)]
     rets = [q.ret for q in PathEval(b).run() if q.end == "return"]
     if len(rets) != 1:
@@ -357,6 +364,8 @@ def r4(ck, F):
         else:
             ck.bad("C11.R4", kkey, where(b.raw["sp"]), "cmp compares %s: a directive with more field constraints (or a span name) no longer sorts before a less specific one "
                    "whenever the lexicographic tie-break disagrees, and the first match stops being the most specific" % keys, fn=b.path)
+        if ok and not first and keys[:1] == ["target.len"]:
+            first = True        # the same first key inside a tuple comparison
         if ok and first:
             ck.ok("C11.R4", "%s: compares target length first and reverses the result" % nm, fn=b.path)
         else:
